@@ -9,6 +9,30 @@ chk("C06",
     "Trusted: the 40-line reachability model in dsim/ref/graph.py; label sets <= 14, histories <= 120 ops.",
     "6.6")
 
+chk("C03",
+    "deterministic simulation: seeded delivery schedules (order, duplication, bursts, interleaved queries) of rule keys into the real TableMethod / RuleDBForest vs a capped Kleene least-fixed-point reference",
+    "Seeded exploration of insertion histories; after every insertion the reported function and pumping set are compared with the reference LFP, values must not decrease, and the same multiset in two other orders must give the same answer.",
+    "Trusted: dsim/ref/lfp.py (cap K=(N+2)G+2, cross-checked against 2K in every run). Universes <= 14 labels, <= 40 rules, shifts within [-6,6].",
+    "6.3")
+
+chk("C11",
+    "deterministic simulation: seeded delivery schedules of pumping integer universes (and universes recorded by simulated forest-DB searches) into the real ForestRuleExtractor vs reference LFP checks",
+    "Seeded exploration; the extracted rule set is checked to be a sub-multiset of what was delivered, one rule per class, closed, productive, 1-minimal and free of avoidable reverse rules.",
+    "Trusted: dsim/ref/lfp.py. Integer universes <= 14 labels; search layer bounded by the words world.",
+    "6.11")
+
+chk("C15",
+    "deterministic simulation: seeded operation histories with pickle-restart faults on the real ClassDB vs a list+dict reference model",
+    "Seeded exploration of interleavings of label/class lookups, membership, emptiness, add, iteration and restart, with and without compression, colliding hashes and equal-but-not-identical copies.",
+    "Trusted: the list+dict model inside dsim/props/c15.py; pool of 20 classes; truthful set_empty only.",
+    "6.15")
+
+chk("C16",
+    "deterministic simulation: seeded operation histories (add/stop/verified/not-inferrable/next/level iteration/drain/pickle restart) on the real DefaultQueue checked by trace predicates P1-P5 and a bounded-progress liveness bound; the same monitor runs on the queue histories of simulated searches",
+    "Seeded exploration of histories over packs of varied shape; predicates are stated on the recorded hand-out history only.",
+    "Trusted: dsim/ref/queue.py. <= 10 labels, <= 200 ops; strategies are inert objects.",
+    "6.16")
+
 NA.update({
  "C07": "pure function of (specification, n, parameters): no clock, random source, I/O, ordering or restart point is involved, so there is no schedule or fault for a simulator to vary (DESIGN.md section 7)",
  "C09": "pure function of (rule form, n) given the children's term tables; nothing schedule-, fault- or history-dependent (DESIGN.md section 7)",
